@@ -210,6 +210,8 @@ def history_filter(A, run):
                 if isinstance(tg, tuple) and tg[0] == "filter_closure":
                     fcl = tg[1][len("closure:"):]
         cl = [v for v in run.by_kind("clone_field") if v["field"] == A.L.history_field]
+        if fcl is not None:
+            fcl = forwarded_predicate(A, fcl) or fcl
         return dict(form="clone/filter/collect", closure=fcl, n=len(col), source=len(cl) >= 1, site=col[0])
     from models import is_hist_copy
     copies = [v for v in run.by_kind("map_op") if v["op"] == "insert" and v["target"][0] == "local" and is_hist_copy(v["key"], v["value"])]
@@ -235,6 +237,77 @@ def history_filter(A, run):
         elif fcl != g:
             allgated = False
     return dict(form="copy loop", closure=fcl if allgated else None, n=len(copies), source=True, site=copies[0])
+
+
+def _places(o, out):
+    if isinstance(o, dict):
+        if isinstance(o.get("l"), int) and isinstance(o.get("p"), list):
+            out.append(o)
+        for v in o.values():
+            _places(v, out)
+    elif isinstance(o, list):
+        for v in o:
+            _places(v, out)
+    return out
+
+
+def forwarded_predicate(A, fcl):
+    """`retain(|k, _v| keep(k))` / `filter(|(k, _v)| keep(k))`: a filter closure that only hands its *key* to a named predicate
+    closure of the same function and returns that closure's answer.  Decided on the closure's MIR: straight-line code (no
+    branch), the only calls are `Deref::deref` and one call of a captured closure whose destination is the return place, and
+    the argument of that call is derived from the key parameter alone (never from the value).  -> the predicate closure's name"""
+    body = A.facts.body(fcl)
+    owner = fcl.rsplit("::{closure", 1)[0]
+    target = None
+    key, val = set(), set()
+
+    def taint(pl):
+        l_, pr = pl["l"], pl["p"]
+        if l_ in key or l_ in val:
+            return ("k" if l_ in key else "") + ("v" if l_ in val else "")
+        if body.arg_count == 3:
+            return "k" if l_ == 2 else ("v" if l_ == 3 else "")
+        if l_ == 2:
+            fi = [x.get("i") for x in pr if x.get("k") == "field"]
+            return "k" if fi[:1] == [0] else "v"
+        return ""
+
+    def note(dst, srcs):
+        ts = "".join(taint(x) for x in srcs)
+        if "k" in ts:
+            key.add(dst)
+        if "v" in ts:
+            val.add(dst)
+    for blk in body.blocks:
+        if blk.get("cleanup"):
+            continue
+        for s_ in blk["stmts"]:
+            if s_["k"] != "assign":
+                continue
+            if s_["p"]["l"] == 0:
+                return None
+            note(s_["p"]["l"], _places(s_["r"], []))
+        t = blk["term"]["t"]
+        if t["k"] in ("goto", "return", "drop"):
+            continue
+        if t["k"] != "call":
+            return None
+        fn = t["f"].get("fn")
+        res = t["f"].get("resolved") or ""
+        if fn == "std::ops::Deref::deref":
+            note(t["dest"]["l"], _places(t["args"], []))
+            continue
+        if fn in ("std::ops::Fn::call", "std::ops::FnMut::call_mut", "std::ops::FnOnce::call_once") \
+                and res.startswith(owner + "::{closure") and res != fcl and target is None:
+            if t["dest"]["l"] != 0 or t["dest"]["p"]:
+                return None
+            ts = "".join(taint(x) for x in _places(t["args"][1:], []))
+            if "k" not in ts or "v" in ts:
+                return None
+            target = res
+            continue
+        return None
+    return target
 
 
 def final_points(A):
@@ -1177,6 +1250,8 @@ def run_filter_own(A, nh, fcl, shape):
     args = {1: closure_env(A, I, body, st), 2: ref(("cloarg",), ())}
     if body.arg_count == 3:
         args = {1: args[1], 2: string([("histkey",)]), 3: string([("hist", frozenset([("anykey",)]))])}
+    elif body.locals[2].get("s") == "&str":
+        args = {1: args[1], 2: string([("histkey",)])}      # a predicate over the key alone
     fr, out, col = I.analyze(body, args=args, state=st)
     if out is None:
         return set()
@@ -1274,6 +1349,8 @@ def run_filter_mode(A, nh, fcl, hit_a, hit_b, superseded=False):
     if body.arg_count == 3:
         # `retain(|key, value| ..)`: key and value are separate arguments
         args = {1: args[1], 2: string([("histkey",)]), 3: string([("hist", frozenset([("anykey",)]))])}
+    elif body.locals[2].get("s") == "&str":
+        args = {1: args[1], 2: string([("histkey",)])}      # a predicate over the key alone
     fr, out, col = I.analyze(body, args=args, state=st)
     rv = set()
     if out is not None:
@@ -1325,36 +1402,43 @@ def reach_from(succ, start):
 
 
 def closure_env(A, I, body, st):
-    """a closure environment whose captured `&self` points at the evaluator and whose other captures are opaque closures/maps"""
+    """a closure environment whose captured `&self` points at the evaluator; captured helper closures get their own environment
+    (recursively: a named predicate closure may itself call the renamed-job helper), a helper's remaining captures are the parts
+    map, the filter closure's own remaining captures are opaque"""
     from domain import ref, adt, TOP
-    envty = body.locals[1]
-    # find the closure aggregate in the owner to learn the capture order
-    owner = body.name.rsplit("::{closure", 1)[0]
-    ob = A.facts.body(owner)
-    caps = None
-    for blk in ob.blocks:
-        for s_ in blk["stmts"]:
-            if s_["k"] == "assign" and s_["r"]["k"] == "agg" and s_["r"]["kind"].get("closure") == body.name:
-                caps = s_["r"]["fields"]
-    fields = []
-    for f in (caps or []):
-        p = f.get("copy") or f.get("move")
-        ty = ob.locals[p["l"]] if (p is not None and not p["p"]) else None
-        if ty is not None and "ref" in ty and ty["ref"].get("adt") == A.L.evaluator:
-            fields.append(ref(("self",), ()))
-        elif ty is not None and "ref" in ty and "ref" in ty["ref"] and ty["ref"]["ref"].get("adt") == A.L.evaluator:
-            st.heap[("selfref",)] = ref(("self",), ())
-            fields.append(ref(("selfref",), ()))
-        elif ty is not None and "ref" in ty and "closure" in ty["ref"]:
-            # reference to the helper closure: build its environment recursively (captures: the parts map)
-            helper = ty["ref"]["closure"]
-            hb = A.facts.body(helper)
-            st.heap[("helperenv",)] = adt("closure:" + helper, {0: (ref(("partsmap",), ()),)})
-            st.heap[("partsmap",)] = ("coll", TOP, TOP, frozenset(["parts"]))
-            fields.append(ref(("helperenv",), ()))
-        else:
-            fields.append(TOP)
-    st.heap[("cloenv0",)] = adt("closure:" + body.name, {0: tuple(fields)})
+    st.heap[("partsmap",)] = ("coll", TOP, TOP, frozenset(["parts"]))
+
+    def build(name, depth):
+        # find the closure aggregate in the owner to learn the capture order
+        owner = name.rsplit("::{closure", 1)[0]
+        ob = A.facts.body(owner)
+        caps = None
+        for blk in ob.blocks:
+            for s_ in blk["stmts"]:
+                if s_["k"] == "assign" and s_["r"]["k"] == "agg" and s_["r"]["kind"].get("closure") == name:
+                    caps = s_["r"]["fields"]
+        if caps is None and depth > 0:
+            return (ref(("partsmap",), ()),)
+        fields = []
+        for f in (caps or []):
+            p = f.get("copy") or f.get("move")
+            ty = ob.locals[p["l"]] if (p is not None and not p["p"]) else None
+            if ty is not None and "ref" in ty and ty["ref"].get("adt") == A.L.evaluator:
+                fields.append(ref(("self",), ()))
+            elif ty is not None and "ref" in ty and "ref" in ty["ref"] and ty["ref"]["ref"].get("adt") == A.L.evaluator:
+                st.heap[("selfref",)] = ref(("self",), ())
+                fields.append(ref(("selfref",), ()))
+            elif ty is not None and "ref" in ty and "closure" in ty["ref"] and depth < 4:
+                helper = ty["ref"]["closure"]
+                hk = ("helperenv", helper)
+                st.heap[hk] = adt("closure:" + helper, {0: build(helper, depth + 1)})
+                fields.append(ref(hk, ()))
+            elif depth > 0:
+                fields.append(ref(("partsmap",), ()))
+            else:
+                fields.append(TOP)
+        return tuple(fields)
+    st.heap[("cloenv0",)] = adt("closure:" + body.name, {0: build(body.name, 0)})
     return ref(("cloenv0",), ())
 
 
